@@ -156,6 +156,7 @@ def run_fabric(chk):
         return
     simnet.c11(chk)
     simnet.c11_raw(chk)
+    simnet.c11_outlayer(chk)
 
 
 def replay(chk, path):
